@@ -29,6 +29,10 @@ type C06Case struct {
 	HasLimit bool           `json:"has_limit,omitempty"`
 	Limit    int            `json:"limit,omitempty"`
 	SQL      string         `json:"sql"`
+	// distinct-agg mode
+	AggCol string `json:"agg_col,omitempty"`
+	AggSum bool   `json:"agg_sum,omitempty"`
+	SumCol string `json:"sum_col,omitempty"`
 }
 
 func init() {
@@ -36,7 +40,7 @@ func init() {
 		ID:    "C06",
 		Title: "DISTINCT removes exactly the duplicates; UNION [ALL] concatenates [and dedups]",
 		Rule: "rapid draws tables with heavy duplication (value pools of 2-3 per column), select lists of columns and simple expressions, and " +
-			"either SELECT DISTINCT (oracle: reference first-occurrence sequence; also SELECT DISTINCT * over heterogeneous rows whose key sets differ at equal width) or a union chain of 2-4 branches (a fifth of the later branches rename their output columns) " +
+			"either SELECT DISTINCT (oracle: reference first-occurrence sequence; also SELECT DISTINCT * over heterogeneous rows whose key sets differ at equal width, and SELECT DISTINCT over a grouped aggregate-only select list) or a union chain of 2-4 branches (a fifth of the later branches rename their output columns) " +
 			"with any mix of UNION / UNION ALL and an optional trailing LIMIT (oracle: left-associative reference; pure UNION ALL chains compared " +
 			"as sequence, others as multiset with the reference's multiplicities; LIMIT: length min(n,|combined|), exact prefix for pure UNION ALL " +
 			"chains, else a sub-multiset of the combined result that is duplicate-free when the last operator is UNION). Non-trivial: >=1 duplicate " +
@@ -102,8 +106,20 @@ func genC06(t *rapid.T) any {
 	if rapid.IntRange(0, 2).Draw(t, "expr") == 0 {
 		c.Items = append(c.Items, SelItem{Expr: sq.Bin(rapid.SampledFrom([]string{"+", "*", "%"}).Draw(t, "exprop"), sq.Col(names[2]), sq.Num(2)), Alias: "e1"})
 	}
-	c.Mode = rapid.SampledFrom([]string{"distinct", "distinct-star", "union", "union", "union"}).Draw(t, "mode")
+	c.Mode = rapid.SampledFrom([]string{"distinct", "distinct-star", "distinct-agg", "union", "union", "union"}).Draw(t, "mode")
 	sel := renderSelect(c.Items, 0, nil)
+	if c.Mode == "distinct-agg" {
+		// DISTINCT over the rows of a grouped, aggregate-only select list: groups with equal aggregates collapse
+		c.Items = nil
+		c.AggCol = names[rapid.IntRange(0, 1).Draw(t, "aggcol")]
+		c.SQL = "SELECT DISTINCT COUNT(*) AS n FROM t GROUP BY " + c.AggCol
+		if rapid.Bool().Draw(t, "withkeysum") {
+			c.AggSum = true
+			c.SQL = "SELECT DISTINCT COUNT(*) AS n, SUM(" + names[2] + ") AS sv FROM t GROUP BY " + c.AggCol
+			c.SumCol = names[2]
+		}
+		return c
+	}
 	if c.Mode == "distinct-star" {
 		// heterogeneous rows: every row has `id` plus one or two of the optional keys x / y / z, so rows of
 		// equal width differ in their column names
@@ -208,6 +224,43 @@ func dedupRows(rows []any) []any {
 func checkC06(c *C06Case) Result {
 	res := Result{Labels: []string{"mode:" + c.Mode}}
 	env := &sq.Env{Doc: c.Doc}
+	if c.Mode == "distinct-agg" {
+		rows, _ := c.Doc["t"].([]any)
+		var order []string
+		count := map[string]float64{}
+		sum := map[string]float64{}
+		for _, r := range rows {
+			rm := r.(map[string]any)
+			k := val.Canon(rm[c.AggCol])
+			if _, ok := count[k]; !ok {
+				order = append(order, k)
+			}
+			count[k]++
+			if f, ok := rm[c.SumCol].(float64); ok {
+				sum[k] += f
+			}
+		}
+		all := []any{}
+		for _, k := range order {
+			o := map[string]any{"n": count[k]}
+			if c.AggSum {
+				o["sv"] = sum[k]
+			}
+			all = append(all, o)
+		}
+		want := dedupRows(all)
+		res.NonTrivial = len(want) < len(all)
+		out := Run(val.CopyMap(c.Doc), c.SQL, Opts{})
+		res.Execs++
+		if !out.OK() {
+			res.Violation = fmt.Sprintf("%s\n  expected %s\n  got %s", c.SQL, val.JSON(want), out.Describe())
+			return res
+		}
+		if d := diffRows(out.Rows, want); d != "" {
+			res.Violation = fmt.Sprintf("%s\n  %s\n  one row per group %s\n  expected %s\n  got      %s", c.SQL, d, val.JSON(all), val.JSON(want), val.JSON(out.Rows))
+		}
+		return res
+	}
 	if c.Mode == "distinct" || c.Mode == "distinct-star" {
 		rows, _ := c.Doc["t"].([]any)
 		star := 0
